@@ -40,7 +40,11 @@ fn layout_of(code: u32) -> KeyboardLayout {
 }
 
 fn proto_of(sel: u32) -> x224::Protocols {
-    x224::Protocols::try_from(sel).expect("bad protocol")
+    // by name, not through TryFrom: the harness must keep compiling when the enum's repr type is edited
+    match sel {
+        0 => x224::Protocols::ProtocolRDP, 1 => x224::Protocols::ProtocolSSL, 2 => x224::Protocols::ProtocolHybrid,
+        8 => x224::Protocols::ProtocolHybridEx, _ => panic!("bad protocol"),
+    }
 }
 
 /// split what the client wrote into complete TPKT frames; anything else is reported as a tail
@@ -96,7 +100,7 @@ fn mk_event(s: &str) -> RdpEvent {
     match f[0] {
         "P" => RdpEvent::Pointer(PointerEvent {
             x: f[1].parse().unwrap(), y: f[2].parse().unwrap(),
-            button: PointerButton::try_from(f[3].parse::<u8>().unwrap()).unwrap_or(PointerButton::None),
+            button: match f[3].parse::<u8>().unwrap() { 1 => PointerButton::Left, 2 => PointerButton::Right, 3 => PointerButton::Middle, _ => PointerButton::None },
             down: f[4] == "1" }),
         "K" => RdpEvent::Key(KeyboardEvent { code: f[1].parse().unwrap(), down: f[2] == "1" }),
         _ => panic!("bad event"),
